@@ -232,3 +232,42 @@ Proof.
   split; [intros a; rewrite gen_dispatch_u8_arm_expected; destruct a; discriminate|].
   rewrite gen_pipeline_u8_expected. discriminate.
 Qed.
+
+(* ---------- histories, binary32 ---------- *)
+From LMDisc Require Import DiscHistory DiscHistoryProofs.
+
+(* the binary32 twin of DiscHistoryProofs.history_overestimates: the buffer after any history whose last call scores
+   the discretised matrix through an arm of the x86 dispatcher satisfies the main clause with the real score, the
+   offset, the factor and scale as the code computes them, under the conditioning predicate *)
+Theorem history_overestimates_f32 (K : nat) (m : list (list F32.t)) (d : @dmat F32.t) (pads : nat -> list Z)
+        (s : list nat) (a : arm) (i : nat) (ops : list hop) (buf0 buf : sscores Z) :
+  0 < K -> K <= 16 ->
+  Forall (fun row => length row = K) m ->
+  Forall (fun row => Forall (fun x => F32.is_finite x = true) (nonwild K row)) m ->
+  to_discrete f32_ops K m = Ok d ->
+  (forall i, 16 <= K + length (pads i)) ->
+  Forall (fun v => v < K) s ->
+  1 <= length m -> i + length m <= length s ->
+  well_conditioned m (d_factor d) = true ->
+  (Z.of_nat (length m) <= 16384)%Z ->
+  F32.le (cond_A m) (F32.of_Z_exp 1 126) = true ->
+  buf_wf 32 buf0 -> Forall (op_ok 32) ops -> hrun gen_avx2_u8 gen_neon_u8 32 ops buf0 = Ok buf ->
+  let st := striped K 32 (configure_wrap_of (length m)) s in
+  exists sc b real,
+    hstep gen_avx2_u8 gen_neon_u8 32 (HScoreInto (mkHCall (gen_dispatch_u8_x86 (arm4_of a)) (d_data d) pads st)) buf = Ok sc /\
+    sc_index sc i = Ok b /\
+    real_score f32_ops m st i = Ok real /\
+    (scale f32_ops d real <= b)%Z.
+Proof.
+  intros HK HK16 Hm Hfin Hd Hp Hs HM Hi Hwc Hlen HA Hwf Hops Hrun st.
+  destruct (backends_overestimate_f32' K m d pads s a i HK HK16 Hm Hfin Hd Hp Hs HM Hi Hwc Hlen HA)
+    as [sc [b [real [H1 [H2 [_ [H4 H5]]]]]]].
+  exists sc, b, real. repeat split; try assumption.
+  assert (Hrows : Forall (fun x => length x = 32) (ss_rows st)).
+  { apply (sseq_ok_len32 K). exact (striped_ok K 32 _ s ltac:(lia) HK eq_refl Hs). }
+  assert (Hc : call_ok 32 (mkHCall (gen_dispatch_u8_x86 (arm4_of a)) (d_data d) pads st)).
+  { unfold call_ok. cbn [hc_id hc_seq]. rewrite gen_dispatch_u8_x86_expected. destruct a; auto. }
+  destruct (scores_history 32 ops _ 0 0 buf0 buf Hwf Hops Hc Hrun) as [_ ->].
+  unfold fresh_call. cbn [hc_id hc_dm hc_pads hc_seq].
+  rewrite (dispatch_gen_is_model a (d_data d) pads st _ _ Hrows). exact H1.
+Qed.
